@@ -8,7 +8,7 @@ import harness
 
 PROP_FILES = ["N2k/Props/C05.lean"]
 LEAN_TARGETS = ["N2k.Props.C05"]
-SUITE_NAMES = ["t2-header"]
+SUITE_NAMES = ["t2-header", "header-public-path", "decoder-histories"]
 ASSUMPTIONS = ["identifiers/fields are non-negative Python ints (the only values the callers produce)"]
 TRUSTED_EXTRA = ["C05: theorems are stated about Gen/Straight.lean, i.e. about the translator's reading of the two functions"]
 EXHAUSTIVE = False
@@ -59,7 +59,11 @@ def correspondence(ctx):
         s.add(f"decint {d} {o} {l}", str(decode_int(d, o, l)), "decode_int")
         b = bytes(rnd.getrandbits(8) for _ in range(rnd.choice([0, 1, 2, 3, 18, 19, 20, 25])))
         s.add(f"cksum {harness.hx(b)}", str(calculate_canbus_checksum(b)), "checksum")
-    return [s.run()]
+    import enccorr
+    import deccorr
+    # the identifier through the public encode/decode path (the glue around _build_header / _extract_header), and priorities that
+    # change from message to message on one stream through the decoder's reassembly
+    return [s.run()] + enccorr.suite_messages(ctx, "header-public-path", fmts=("ebyte", "yd")) + deccorr.suite_histories(ctx)
 
 
 def _monitor(ids, triples):
@@ -104,11 +108,49 @@ def search(ctx, broken, corr_broken):
         triples.append((rnd.getrandbits(18), rnd.getrandbits(8), rnd.getrandbits(8), rnd.getrandbits(3)))
     LAST_SEARCH_CANDIDATES = len(ids) + len(triples)
     hits = _monitor(ids, triples)
-    return [{"key": f"C05/{h['kind']}/{h.get('id', h.get('input'))}", "what": f"{h}", "replay": {"kind": "header", "case": h}} for h in hits[:1]]
+    out = [{"key": f"C05/{h['kind']}/{h.get('id', h.get('input'))}", "what": f"{h}", "replay": {"kind": "header", "case": h}} for h in hits[:1]]
+    if not out:
+        import enccorr
+        h2, n2 = enccorr.monitor_trips(ctx, prop="C05", fmts=("ebyte", "usb", "yd"))
+        h3, n3 = _monitor_priority(ctx)
+        LAST_SEARCH_CANDIDATES += n2 + n3
+        out = (h2 + h3)[:3]
+    return out
+
+
+def _monitor_priority(ctx):
+    """a fast-packet message is returned with the priority (and addressing) of its own frames, whatever was abandoned on that stream before"""
+    from nmea2000.decoder import NMEA2000Decoder
+    rnd = random.Random(ctx["seed"] + 9)
+    n = 0
+    for trial in range(300):
+        d = NMEA2000Decoder()
+        seq = rnd.randrange(8)
+        for k in range(4):
+            prio = rnd.randrange(8)
+            payload = rnd.randrange(15000, 20000).to_bytes(2, "little") + rnd.randrange(0, 864000000).to_bytes(4, "little") + bytes(8)
+            frames = [bytes([seq * 32, len(payload)]) + payload[:6], bytes([seq * 32 + 1]) + payload[6:13], bytes([seq * 32 + 2]) + payload[13:]]
+            lose = k < 3 and rnd.random() < 0.5
+            i = (prio << 26) | (128275 << 8) | 7
+            out = None
+            for f in (frames[:-1] if lose else frames):
+                n += 1
+                out = d.decode_tcp(bytes([0x80 | len(f)]) + i.to_bytes(4, "big") + f + bytes(8 - len(f)))
+            if not lose and (out is None or out.priority != prio or out.source != 7):
+                return [{"key": "C05/priority-of-reassembled-message", "what": f"a fast-packet message sent with priority {prio} came back with {out and out.priority} after an abandoned message on the same stream",
+                         "replay": {"kind": "priority", "seed": ctx["seed"]}}], n
+            seq = (seq + 1) % 8
+    return [], n
 
 
 def replay(rp):
     harness.load_repo()
+    if rp.get("kind") == "message-trip":
+        import enccorr
+        return enccorr.replay_trip(rp)
+    if rp.get("kind") == "priority":
+        h, n = _monitor_priority({"seed": rp.get("seed", 0)})
+        return not h, (h[0]["what"] if h else "holds now")
     if rp.get("kind") != "header":
         return False, "not an input replay: " + str(rp.get("broken_theorems") or rp.get("broken_correspondence"))
     c = rp["case"]
